@@ -1000,6 +1000,80 @@ def check_C02(tier, seed):
                                "harness renderer and comparator trusted"])
 
 
+
+def pool_stage(pid):
+    """the variable pool at the real limit: PoolLimit (the store of BasicMachine abstracted to its cardinality and a few
+    named scalars) is model-checked with a small limit, then the interpreter is driven to the edge of its pool and every
+    command's outcome (refused or not, number of stored variables afterwards, value read back) must be the PoolLimit
+    action into exactly that pool size"""
+    import gen18
+    st = Stage()
+    d = common.outdir(pid)
+    r0 = common.run_tlc(pid, "PoolLimit.tla", os.path.join(SPEC, "PoolLimit.cfg"), timeout=600, tag="pool")
+    if not r0["ok"]:
+        raise ToolError("TLC reports a violation on PoolLimit itself: %s; see %s" % (r0["error"] or r0["violated"], r0["out"]))
+    st.states += r0.get("distinct", 0)
+    sess, evs = gen18.pool_session()
+    sp, tp, ep = (os.path.join(d, "pool." + x) for x in ("sessions.ndjson", "trace.ndjson", "events.ndjson"))
+    with open(sp, "w") as f:
+        f.write(json.dumps(sess) + "\n")
+    t0 = time.time()
+    common.run_bvh(["drive", sp, tp])
+    rec = json.loads(open(tp).readline())
+    events = []
+    for c, e in zip(rec["cmds"], evs):
+        if e is None:
+            continue
+        e = dict(e)
+        codes = [x["code"] for it in c["resp"] if it.get("k") == "err" for x in it["errs"]]
+        if c.get("wait") != "ready" or any(k != 7 for k in codes):
+            e = {"ev": "unexpected", "wait": c.get("wait"), "codes": codes, "was": e}
+        else:
+            e["resp"] = "oom" if codes else "ok"
+            e["card"] = c["probe"]["nvars"]
+            if e["ev"] == "get":
+                text = "".join(chr(x) for it in c["resp"] if it.get("k") == "out" for x in it["s"])
+                try:
+                    e["val"] = int(text.replace("READY.", "").strip() or "x")
+                except ValueError:
+                    e = {"ev": "unexpected", "text": text, "was": e}
+        events.append(e)
+    with open(ep, "w") as f:
+        for e in events:
+            f.write(json.dumps(e) + "\n")
+    r = common.run_tlc(pid, "PoolTrace.tla", os.path.join(SPEC, "PoolTrace.cfg"), timeout=900, workers=1,
+                       env_extra={"TRACE": ep}, tag="pooltrace")
+    if not r["ok"]:
+        raise ToolError("TLC failed on PoolTrace: %s; see %s" % (r["error"] or r["violated"], r["out"]))
+    verdict = []
+    for ln in open(r["out"]):
+        if ln.startswith('"{'):
+            try:
+                x = json.loads(json.loads(ln))
+            except ValueError:
+                continue
+            if x.get("T") in ("ACCEPT", "STUCK"):
+                verdict.append(x)
+    st.evaluations = 1
+    st.transitions = len(events)
+    st.nontrivial = sum(1 for e in events if e.get("resp") == "oom")
+    st.exhaustive = False
+    st.notes["pool"] = {"events": len(events), "refused_(OUT_OF_MEMORY)": st.nontrivial,
+                        "largest_pool_observed": max([e.get("card", 0) for e in events] or [0]),
+                        "PoolLimit_small_limit_distinct_states": r0.get("distinct", 0),
+                        "drive_wall_s": round(time.time() - t0, 1), "verdict": verdict[:1]}
+    if len(verdict) == 1 and verdict[0]["T"] == "ACCEPT":
+        st.validated = 1
+        st.samples.append({"case": {"session": sess["id"], "events": events[:6]}, "observed": "accepted by PoolTrace"})
+    else:
+        v = verdict[0] if verdict else {}
+        bad = events[v["l"] - 1] if v.get("l") and v["l"] <= len(events) else None
+        st.failures.append({"case": sess, "why": "the variable pool at its limit: event %s (%s) is not a step of PoolLimit from %s"
+                                                % (v.get("l"), json.dumps(bad), json.dumps(v.get("pre"))),
+                            "observed": {"events": events}})
+    return st
+
+
 def check_C18(tier, seed):
     import gen18
     t0 = time.time()
@@ -1015,6 +1089,7 @@ def check_C18(tier, seed):
         stages.append(validate_sessions("C18", "leaklong", gen18.leak_sessions(3000, prefix="C18x")[::7], timeout=6000))
     lim = gen18.limit_sessions()
     stages.append(validate_sessions("C18", "limits", lim, timeout=6000, chunk=1))
+    stages.append(pool_stage("C18"))
     return finish("C18", tier, seed, "model_checking", stages, t0,
                   rule="(1) TLC checks StmtNeutral (frames change only through FOR / NEXT / GOSUB / RETURN / ON..GOSUB / RUN / "
                        "CLEAR / errors) and PoolBounded on the abstract machine for every program of the bounded grammar with a "
@@ -1022,9 +1097,13 @@ def check_C18(tier, seed):
                        "and in a subroutine, then STOP exposes the interpreter's stack: the probe must show exactly the "
                        "specified frames, zero stray stack values and no slot for variables set back to 0 / \"\"; (3) each "
                        "pool (GOSUB recursion, abandoned FOR frames, FN recursion, ON..GOSUB recursion) is driven past the "
-                       "real limit of 65535: OUT OF MEMORY is specified and the session must remain usable."
+                       "real limit of 65535: OUT OF MEMORY is specified and the session must remain usable; (4) the variable "
+                       "pool: PoolLimit (the store's rule abstracted to its cardinality) is model-checked with a small limit "
+                       "(PoolBounded, RefusedChangesNothing), then the interpreter is filled to 65534 variables and stepped "
+                       "across the limit one assignment per command: refusals, pool sizes and values read back must be a "
+                       "behaviour of PoolLimit with the real limit (PoolTrace)."
                        + VM_RULE % "the control-flow template grammar",
-                  assumptions=ASSUME_SESS + ["the variable, DATA and code pools are driven to their limit only in the thorough tier"])
+                  assumptions=ASSUME_SESS + ["the DATA and code pools are not driven to their limit"])
 
 
 def check_C14(tier, seed):
